@@ -686,6 +686,69 @@ fn big_strings(ctx: &mut Ctx, seed: u64) {
     ctx.class("drop:big-strings");
 }
 
+/// The same release check at every input length in windows around the sizes where the parser
+/// switches strategy (its scratch buffer moves from the thread-local one to a temporary one when
+/// `len/2 + 2` reaches 196 608 nodes, i.e. at 393 212 bytes; powers of two; the 4 KiB page): one
+/// parse and drop per length, whole-input and embedded, and not one byte may stay behind.
+fn threshold_lengths(ctx: &mut Ctx, window: usize) {
+    if !ledger::enabled() {
+        return;
+    }
+    let res = std::thread::spawn(move || -> Vec<(usize, &'static str, i64)> {
+        let centres = [393_212usize, 393_216, 196_608, 131_072, 262_144, 524_288, 65_536, 786_424, 4_096];
+        let centre = centres[window % centres.len()];
+        let make = |len: usize| -> String {
+            let mut s = String::with_capacity(len);
+            s.push('[');
+            while s.len() + 3 <= len.saturating_sub(1) {
+                s.push_str("1,");
+            }
+            s.push('1');
+            while s.len() < len - 1 {
+                s.push(' ');
+            }
+            s.push(']');
+            s
+        };
+        // warm-up on this thread: the thread-local scratch buffer grows to the largest document
+        // below its cap (393 211 bytes) and is kept, by design
+        for l in [64usize, 300_000, 393_211, 393_209, 500_000] {
+            let t = make(l);
+            drop(sonic_rs::from_str::<Value>(&t));
+            drop(sonic_rs::from_str::<Vec<Value>>(&format!("[{}]", t)));
+        }
+        let mut out = vec![];
+        for len in centre.saturating_sub(24).max(8)..centre + 24 {
+            let t = make(len);
+            let wrapped = format!("[{}]", t);
+            let before = ledger::snap();
+            drop(sonic_rs::from_str::<Value>(&t));
+            let a = ledger::snap();
+            drop(sonic_rs::from_slice::<sonic_rs::Array>(t.as_bytes()));
+            let b = ledger::snap();
+            drop(sonic_rs::from_str::<Vec<Value>>(&wrapped));
+            let c = ledger::snap();
+            for (what, x, y) in [("from_str::<Value>", before, a), ("from_slice::<Array>", a, b), ("Vec<Value> element", b, c)] {
+                if y.bytes - x.bytes > 4096 {
+                    out.push((len, what, y.bytes - x.bytes));
+                }
+            }
+        }
+        out
+    })
+    .join();
+    ctx.ops(48 * 3);
+    match res {
+        Ok(rows) => {
+            for (len, what, grew) in rows.iter().take(3) {
+                ctx.fail("memory-kept-after-drop", format!("{} of an input of exactly {} bytes, parsed and dropped: {} bytes stay allocated", what, len, grew));
+            }
+            ctx.class("ledger:threshold-lengths");
+        }
+        Err(_) => ctx.fail("threshold-thread-panicked", "the worker thread panicked".into()),
+    }
+}
+
 impl Check for C16 {
     fn id(&self) -> &'static str {
         "C16"
@@ -713,6 +776,11 @@ impl Check for C16 {
             }
             for _ in 0..g.count(16, 96) {
                 emit(Case::with("big-strings", vec![], &[r.next() as i64]));
+            }
+            for w in 0..9u64 {
+                if g.mine(300 + w) {
+                    emit(Case::with("threshold-lengths", vec![], &[w as i64]));
+                }
             }
         }
         let n = g.count(32, 640);
@@ -755,6 +823,10 @@ impl Check for C16 {
                 ctx.class(&format!("template:{}", t % 10));
                 ctx.sample("permutations");
             }
+            "threshold-lengths" => {
+                threshold_lengths(ctx, c.p(0) as usize);
+                ctx.sample("threshold-lengths");
+            }
             "big-strings" => {
                 big_strings(ctx, c.p(0) as u64);
                 ctx.sample("big-strings");
@@ -780,6 +852,7 @@ impl Check for C16 {
             v.push("ledger:alloc-checked");
             v.push("ledger:big-document-released");
             v.push("drop:big-strings");
+            v.push("ledger:threshold-lengths");
         }
         v
     }
